@@ -1875,7 +1875,9 @@ fn TestStaticDictionaryItem(
         return 0i32;
     }
     let matchlen: usize = FindMatchLengthWithLimit(data, &dictionary.data[offset..], len);
-    if matchlen.wrapping_add(kCutoffTransformsCount as usize) <= len || matchlen == 0usize {
+    // a match must span at least two bytes: the lazy matcher has already indexed the position
+    // right after the match start, which a one-byte match would then find as a copy of itself
+    if matchlen.wrapping_add(kCutoffTransformsCount as usize) <= len || matchlen < 2usize {
         return 0i32;
     }
     {
